@@ -147,6 +147,7 @@ pub fn fire_of(sc: &Value) -> (Option<(String, String, u64)>, String) {
 pub fn scan(dir: &Path, spec: &Value, hashes: &[String]) -> Value {
     // independent scan: which bands are still complete, which of their blocks are missing
     let mut problems = Vec::new();
+    let mut broken = Vec::new();
     let mut bands_left = Vec::new();
     for (b, band) in spec["bands"].as_array().unwrap().iter().enumerate() {
         if band.is_null() {
@@ -159,6 +160,10 @@ pub fn scan(dir: &Path, spec: &Value, hashes: &[String]) -> Value {
         bands_left.push(b);
         let complete = bdir.join("BANDHEAD").exists() && bdir.join("BANDTAIL").exists()
             && band["hunks"].as_array().unwrap().iter().enumerate().all(|(hn, _)| bdir.join("i/00000").join(format!("{:09}", hn)).exists());
+        // still listed with its tail (so it counts as a complete version) but no longer whole
+        if bdir.join("BANDTAIL").exists() && !complete {
+            broken.push(b);
+        }
         if complete {
             let mut missing = BTreeSet::new();
             for hunk in band["hunks"].as_array().unwrap() {
@@ -177,7 +182,8 @@ pub fn scan(dir: &Path, spec: &Value, hashes: &[String]) -> Value {
         }
     }
     let blocks_left: Vec<usize> = hashes.iter().enumerate().filter(|(_, h)| dir.join("d").join(&h[..3]).join(h).exists()).map(|(j, _)| j).collect();
-    json!({"bands_left": bands_left, "blocks_left": blocks_left, "damaged": problems, "lock_left": dir.join("GC_LOCK").exists()})
+    json!({"bands_left": bands_left, "blocks_left": blocks_left, "damaged": problems, "broken_complete_bands": broken,
+           "lock_left": dir.join("GC_LOCK").exists()})
 }
 
 pub fn run(sc: &Value) -> Value {
